@@ -11,6 +11,7 @@ import Driver.ScalarRt
 import Driver.Calls
 import Driver.Locs
 import Driver.Anchors
+import Driver.Emit
 /-!
 `modeldrv`: one request per line on stdin (`<area> <op> <args…>`), one answer per line on stdout.
 -/
@@ -31,6 +32,7 @@ def dispatch (line : String) : String :=
   | "calls" :: rest => Calls.handle rest
   | "locs" :: rest => Locs.handle rest
   | "anchors" :: rest => Anchors.handle rest
+  | "emit" :: rest => Emit.handle rest
   | _ => "bad-op"
 
 partial def loop (h : IO.FS.Stream) (out : IO.FS.Stream) : IO Unit := do
